@@ -163,6 +163,77 @@ def r8(ctx):
                       "%s with header list %s leaves (response_length, upgrade, headers) = %s, required %s: the head that will be sent and the body framing disagree "
                       "(stale Content-Length / headers of the replaced response)" % (pname, list(hdrs), sorted(map(str, got)), want), str(want))
     ctx.table("C02.R8 start_response state", rows)
+    restart_head(ctx, "C02.R8")
+
+
+def restart_head(ctx, rid="C02.R8"):
+    """evaluated over a whole response life: __init__, start_response(first), start_response(second, exc_info) before any byte
+    was sent, send_headers -- the head that goes on the wire is the *second* call's status line and headers (what the access
+    log and the framing state describe), nothing of the first call survives in it"""
+    repo = ctx.repo
+    cls = repo.cls(RESP)
+    attrs = set()
+    for fm in cls.methods.values():
+        for x in walk_own(fm.node):
+            if isinstance(x, (ast.Assign, ast.AugAssign)):
+                for t in (x.targets if isinstance(x, ast.Assign) else [x.target]):
+                    if isinstance(t, ast.Attribute) and isinstance(t.value, ast.Name) and t.value.id == "self":
+                        attrs.add("self." + t.attr)
+    tracked = sorted(attrs)
+    from ..absint import SpecObj
+    f_init = ctx.fn(repo.func(RESP + ".__init__"))
+    f_sr = ctx.fn(repo.func(RESP + ".start_response"))
+    f_sh = ctx.fn(repo.func(RESP + ".send_headers"))
+    ST, HD, EXC = f_sr.params[1], f_sr.params[2], f_sr.params[3]
+
+    def atom_of(e):
+        if isinstance(e, ast.Call) and (e.func.attr if isinstance(e.func, ast.Attribute) else getattr(e.func, "id", "")) == "http_date":
+            return "DATE"
+        return None
+
+    def carry(o):
+        return dict((k, v) for k, v in o.env.items() if k.startswith("self.") or k == "DATE")
+    p = f_init.params
+    envs = []
+    for o in Explorer(f_init, tracked=tracked, atom_of=atom_of).run(f_init.cfg.entry, {p[1]: UNKNOWN, p[2]: UNKNOWN, p[3]: UNKNOWN, "DATE": "<date>"}):
+        if o.kind == "return":
+            envs.append(carry(o))
+    ctx.need(envs, rid + ": Response.__init__ has no normal outcome")
+    steps = (("200 OK", (("Content-Length", "5"), ("X-Old", "1")), None), ("500 Oops", (("Content-Type", "text/plain"), ("X-New", "2")), ("T", "V", "TB")))
+    for st, hd, exc in steps:
+        nxt = []
+        for env in envs:
+            e2 = dict(env)
+            e2.update({ST: st, HD: hd, EXC: exc, "self.req.version": (1, 1), "self.req.method": "GET", "self.version": "gunicorn/0"})
+            for o in Explorer(f_sr, tracked=tracked, atom_of=atom_of, inline_depth=3).run(f_sr.cfg.entry, e2):
+                if o.kind == "return":
+                    nxt.append(carry(o))
+        envs = nxt[:8]
+        ctx.need(envs, rid + ": start_response(%r) has no normal outcome" % st)
+    writes = [(n, c) for c in calls_to(repo, f_sh, [UTIL + ".write", UTIL + ".write_nonblock"]) for n in nodes_with(f_sh, c)]
+    ctx.need(writes, rid + ": send_headers never writes to the socket")
+    node, call = writes[0]
+    heads = set()
+    for env in envs:
+        e2 = dict(env)
+        e2.update({"self.req.version": (1, 1), "self.req.method": "GET", "self.version": "gunicorn/0"})
+        outs = Explorer(f_sh, tracked=tracked, atom_of=atom_of, inline_depth=3).run(f_sh.cfg.entry, e2, probes={node.id: ("head", lambda ex_, env_: ex_.ev(call.args[1], env_))})
+        for o in outs:
+            for k, v in o.events:
+                if k == "head":
+                    heads.add(v)
+    ok_all = bool(heads)
+    why = ""
+    for h in heads:
+        if not isinstance(h, bytes):
+            ok_all, why = False, "the head cannot be determined (%r)" % (h,)
+            continue
+        lines = h.split(b"\r\n")
+        if not (lines[0] == b"HTTP/1.1 500 Oops" and b"X-New: 2" in lines and b"Content-Type: text/plain" in lines and not any(l.startswith((b"X-Old", b"Content-Length: 5")) for l in lines)):
+            ok_all, why = False, "the head on the wire is %r" % (h[:160],)
+    ctx.check(rid, ok_all, key(f_sh, "head-after-restart"), site(f_sh),
+              "after start_response('200 OK', [Content-Length: 5, X-Old]) and then start_response('500 Oops', [Content-Type, X-New], exc_info) with nothing sent yet, %s: the client receives the replaced "
+              "response's status / headers while the access log and the body framing follow the new ones" % (why or "send_headers writes nothing"), "head = second call's status line and headers")
 
 
 STATUS_CLASS = {100: "1xx", 101: "1xx", 199: "1xx", 200: "other", 204: "204", 304: "304", 404: "other", 500: "other"}
